@@ -280,10 +280,16 @@ def r4_inline_closure(name):
     """R4: a local, non-escaping closure `let [mut] NAME = |P| BODY;` (capturing `&mut` locals, which Verus rejects)
     is removed and every call `NAME(ARG)` becomes `{ let P = ARG; BODY' }` where BODY' is BODY without its outer braces.
     Only single-parameter closures without type annotation; calls must be expression statements."""
-    def rule(u, key, text):
+    def rule(u, key, text, name=name):
         m = re.search(r'let\s+(?:mut\s+)?%s\s*=\s*\|\s*([A-Za-z_][A-Za-z0-9_]*)\s*\|' % re.escape(name), text)
         if not m:
-            return text
+            # the closure may have been renamed: if the function defines exactly one local single-parameter block closure, take it
+            ms = list(re.finditer(r'let\s+(?:mut\s+)?([A-Za-z_][A-Za-z0-9_]*)\s*=\s*\|\s*([A-Za-z_][A-Za-z0-9_]*)\s*\|\s*\{', text))
+            if len(ms) != 1:
+                return text
+            name = ms[0].group(1)
+            m = re.search(r'let\s+(?:mut\s+)?%s\s*=\s*\|\s*([A-Za-z_][A-Za-z0-9_]*)\s*\|' % re.escape(name), text)
+            u.relaxed.append('%s: rule R4 follows the renamed local closure `%s`' % (key, name))
         param = m.group(1)
         rest = text[m.end():]
         toks = tokenize(rest)
